@@ -39,13 +39,16 @@ func genCtor(fl *hx.Flags, emit func(Case)) {
 		sizes := []int64{0, 1, ss - 1, ss, ss + 1, 2*ss - 1, 2 * ss, 2*ss + bs, 3 * ss, 3*ss + ss/2}
 		if bs >= 4096 {
 			sizes = []int64{ss - 1, ss, ss + 4096, 2 * ss, 3 * ss}
+			if fl.Tier != "thorough" && bs > 4096 {
+				sizes = []int64{ss}
+			}
 		}
 		for _, sz := range sizes {
 			if sz > maxSize {
 				continue
 			}
 			for _, fit := range []bool{false, true} {
-				if bs >= 4096 && sz > ss+4096 && !fit {
+				if bs >= 4096 && (sz > ss+4096 || bs > 4096) && !fit {
 					continue // the very large storages once
 				}
 				emit(Case{Kind: "seq", Bs: bs, Size: sz, Fit: fit, Backend: "mem", Ops: stdOps(), Every: everyFor(sz/ss*8*bs, 14), Note: "ctor"})
@@ -95,12 +98,30 @@ func enumerate(depth int, alpha []Op, f func([]Op)) {
 	rec(0)
 }
 
+// prefill returns initial bytes that mark exactly the indices 0..k-1 as allocated
+func prefill(bs, k int64) [][3]int64 {
+	bis, ss := 8*bs, segSize(bs)
+	var in [][3]int64
+	s := k / bis
+	for t := int64(0); t < s; t++ {
+		in = append(in, [3]int64{t * ss, bs, 255})
+	}
+	rest := k % bis
+	if rest/8 > 0 {
+		in = append(in, [3]int64{s * ss, rest / 8, 255})
+	}
+	if rest%8 > 0 {
+		in = append(in, [3]int64{s*ss + rest/8, 1, (1 << (rest % 8)) - 1})
+	}
+	return in
+}
+
 func genExhaustive(fl *hx.Flags, emit func(Case)) {
 	thorough := fl.Tier == "thorough"
 	type geo struct {
-		bs, segs     int64
-		dFull, dRed  int
-		oversize     int64
+		bs, segs    int64
+		dFull, dRed int
+		oversize    int64
 	}
 	geos := []geo{{1, 1, 2, 3, 0}, {1, 2, 2, 3, 5}, {2, 1, 2, 3, 0}, {2, 2, 1, 2, 33}}
 	if thorough {
@@ -109,25 +130,37 @@ func genExhaustive(fl *hx.Flags, emit func(Case)) {
 	for _, g := range geos {
 		bis := 8 * g.bs
 		count := bis * g.segs
-		fills := map[int64]bool{0: true, 7: true, 8: true, 9: true, bis: true, bis + 1: true, count - 1: true, count: true}
+		fills := map[int64]bool{0: true, 8: true, 9: true, bis + 1: true, count - 1: true, count: true}
+		if thorough {
+			fills[7], fills[bis] = true, true
+		}
 		for fill := int64(0); fill <= count; fill++ {
 			if !fills[fill] {
 				continue
 			}
 			for pass := 0; pass < 2; pass++ {
+				// pass 0: the fill level is reached by ArrangeBlock calls (the hint has moved), full alphabet;
+				// pass 1: the fill level is in the initial bytes (the hint starts at 0), deeper, reduced alphabet
 				depth, alpha := g.dFull, alphabet(g.bs, g.segs, true)
 				if pass == 1 {
 					depth, alpha = g.dRed, alphabet(g.bs, g.segs, false)
 				}
 				enumerate(depth, alpha, func(seq []Op) {
 					ops := make([]Op, 0, int(fill)+len(seq)+1)
-					for i := int64(0); i < fill; i++ {
-						ops = append(ops, Op{K: "A"})
+					var in [][3]int64
+					rfrom := 0
+					if pass == 0 {
+						for i := int64(0); i < fill; i++ {
+							ops = append(ops, Op{K: "A"})
+						}
+						rfrom = int(fill)
+					} else {
+						in = prefill(g.bs, fill)
 					}
 					ops = append(ops, seq...)
 					ops = append(ops, Op{K: "A"})
 					emit(Case{Kind: "seq", Bs: g.bs, Size: g.segs*segSize(g.bs) + g.oversize, Fit: g.oversize == 0, Backend: "mem",
-						Ops: ops, Every: 1, Note: "exhaustive"})
+						Init: in, Ops: ops, Every: 1, RFrom: rfrom, Note: "exhaustive"})
 				})
 			}
 		}
@@ -313,6 +346,9 @@ func genRandom(fl *hx.Flags, emit func(Case), count func(string)) {
 		bs int64
 		w  int
 	}{{1, 10}, {2, 10}, {4, 10}, {8, 9}, {16, 9}, {32, 7}, {64, 6}, {128, 5}, {256, 4}, {512, 4}, {1024, 3}, {2048, 2}, {4096, 2}, {8192, 1}, {12288, 1}}
+	if !thorough {
+		weights[len(weights)-3].w, weights[len(weights)-2].w, weights[len(weights)-1].w = 1, 0, 0
+	}
 	tot := 0
 	for _, w := range weights {
 		tot += w.w
@@ -320,7 +356,10 @@ func genRandom(fl *hx.Flags, emit func(Case), count func(string)) {
 	for i := 0; i < ncases; i++ {
 		r := prng.New(fl.Seed, "C17", uint64(i))
 		var bs int64
-		for {
+		if !thorough && i < 2 {
+			bs = []int64{8192, 12288}[i] // the two largest geometries once each in the quick tier
+		}
+		for bs == 0 || !validBs(bs) {
 			x := r.Intn(tot)
 			for _, w := range weights {
 				if x < w.w {
@@ -328,9 +367,6 @@ func genRandom(fl *hx.Flags, emit func(Case), count func(string)) {
 					break
 				}
 				x -= w.w
-			}
-			if validBs(bs) {
-				break
 			}
 		}
 		ss := segSize(bs)
